@@ -288,8 +288,10 @@ func Consensus(trees <-chan Trees, cutoff float64) (*Tree, error) {
 			return nil, curtree.Err
 		}
 
-		// The two branches under the root of a rooted tree define the same
-		// bipartition, which must be counted only once per tree
+		// The two branches around a single-child node, like the two branches
+		// under the root of a rooted tree, define the same bipartition, which
+		// must be counted only once per tree
+		curtree.Tree.RemoveSingleNodes()
 		if curtree.Tree.Rooted() {
 			curtree.Tree.UnRoot()
 		}
